@@ -132,6 +132,9 @@ type Exec struct {
 	FloatSites map[string]string
 	InitMem    map[int]Val // memory after package init
 	userStub   UserStub
+	// LemmaPoints: per math function, arguments at which the native value is
+	// evaluated and asserted (with monotonicity) at every application site.
+	LemmaPoints map[string][]float64
 }
 
 func NewExec(prog *ssa.Program, pkg *ssa.Package, mode string) *Exec {
@@ -141,7 +144,7 @@ func NewExec(prog *ssa.Program, pkg *ssa.Package, mode string) *Exec {
 		inputBy: map[string]*Term{}, axiomSeen: map[string]bool{}, ufSites: map[string][]*Term{},
 		UFUsed: map[string]int{}, Known: map[string]bool{}, Unwind: 40,
 		finfo: map[*ssa.Function]*FuncInfo{}, FuncsSeen: map[string]string{}, Stubs: map[string]int{},
-		FloatSites: map[string]string{}}
+		FloatSites: map[string]string{}, LemmaPoints: map[string][]float64{}}
 	switch mode {
 	case "R", "":
 		e.F = &ArithR{S: s}
